@@ -147,6 +147,10 @@ def check_C15(ctx, rep):
             rep.ob('C15.R1', ns, 'TunnelSent-same-time:%s' % show(cp), next_field(flds.get('time'), 'time'), 'time = %s' % shape(flds.get('time')))
             if want_arm == 'PaddingSent':
                 rep.ob('C15.R1', ns, 'padding-TunnelSent-carries-flags', next_field(flds.get('bypass'), 'bypass') and next_field(flds.get('replace'), 'replace'), '')
+            if want_arm == 'NormalSent':
+                # a normal packet never bypasses blocking and replaces nothing (only padding carries those flags)
+                rep.ob('C15.R1', ns, 'normal-TunnelSent-carries-no-flags', is_const(flds.get('bypass'), 0) and is_const(flds.get('replace'), 0),
+                       'bypass = %s, replace = %s' % (shape(flds.get('bypass')), shape(flds.get('replace'))))
         elif evn is None:
             rep.ob('C15.R1', ns, 'event-of-unknown-kind', False, 'SimEvent built with event %s' % shape(flds.get('event')))
         else:
@@ -609,6 +613,15 @@ def check_C16(ctx, rep):
              'out of the blocked queue and marked bypassable only on paths where the padding itself carries the bypass flag (next.bypass), '
              'whatever the active blocking allows; the flags of the active blocking only select the queue that is peeked/popped')
     check_replace_promotion(ctx, rep, 'C16.R6')
+    # a normal packet enters the tunnel queue without the bypass flag: only padding (and what bypass+replace padding promotes) may pass
+    # a bypassable blocking
+    nsf = sim_fn(prog, 'sim_network_stack')
+    n_ts = 0
+    for (site, evn, evf, flds, ln) in sim_events(an.get(nsf)):
+        if evn == 'TunnelSent' and is_const(flds.get('contains_padding'), 0):
+            n_ts += 1
+            rep.ob('C16.R6', nsf, 'normal-TunnelSent-does-not-bypass', is_const(flds.get('bypass'), 0), 'bypass = %s' % shape(flds.get('bypass')))
+    rep.count_floor('C16.R6', 'normal TunnelSent events built in sim_network_stack', n_ts, 1)
     rep.assumptions += ['which queued packet leaves while blocked (peek selection among queues) is NOT decided',
                         'every CFG path is treated as feasible']
     return 'handler tables for blocking in the simulator, Option-slot typestate, producer inventory, side consistency of the bypass decision'
